@@ -10,6 +10,9 @@ CONSTANTS
   Faults = @FAULTS@
   Ticker = @TICKER@
   CloneOnEmit = @CLONE@
+  ChunkAbort = @ABORT@
+  FixStopDone = @FIXA@
+  FixClosed = @FIXB@
   Admit <- MCAdmit
 PROPERTIES Termination
 CHECK_DEADLOCK FALSE
